@@ -2,7 +2,7 @@ HOOK_COMMITS = []
 ENGINES = [
     {"name": "mc-core::enumerate", "path": "harness/mc-core/src/enumerate.rs", "serves_properties": ["C12", "C13", "C16", "C17"],
      "kind_free_text": "exhaustive bounded input enumeration (odometers, products, subsets, byte mutations) against independent references"},
-    {"name": "mc-core::bfs", "path": "harness/mc-core/src/bfs.rs", "serves_properties": [],
+    {"name": "mc-core::bfs", "path": "harness/mc-core/src/bfs.rs", "serves_properties": ["C06"],
      "kind_free_text": "explicit-state BFS over operation histories; the transition function is the real method (clone mode / replay mode)"},
     {"name": "mc-core::sched", "path": "harness/mc-core/src/sched.rs", "serves_properties": [],
      "kind_free_text": "stateless iteratively deviation-bounded DFS over choice sequences (schedules, fault placements)"},
@@ -24,6 +24,10 @@ CHECKS = [
      "technique": "exhaustive enumeration of field-mutation subsets x signature provenance x claimed identity against a construction-aware oracle",
      "text": "All subsets of 10 field mutations (<=3 fields quick, all 1024 thorough) x 4 key variants x 7 signature provenances x 2 claimed identities are verified with the real PaymentQuote code; all proof compositions of <=3/4 entries over 5 entry kinds for 3 nodes; expiry at 10 ages; a 3^4 grid for the history rule. The oracle knows how each case was built, so it is independent of the verification code.",
      "note": "Trusted: libp2p ed25519 signing used to build cases; sub-second timestamp changes are not judged (signature covers whole seconds); the 3600 s edge is bracketed at +-10 s."},
+    {"id": "C06", "engine": "mc-core::bfs", "level": "model_checking",
+     "technique": "explicit-state BFS over real SignedRegister replicas (clone mode) + exhaustive merge algebra over all sub-registers",
+     "text": "The transition function is the real add_op/merge/verified_merge on real replicas; every state reachable within depth 3/4 from 2/3 empty replicas under a 9-op pool (authorised, stranger, forged, oversized, foreign-address) and from replicas pre-filled to 1022..1024 entries is checked against admission, validity-of-reachable-states and convergence invariants; merge laws are checked on all pairs/triples of the 32 sub-registers and delivery-order independence on all permutations with duplication.",
+     "note": "Trusted: fixed BLS keys and op pool; state key = set of pool ops per replica (exact: a replica of a fixture is determined by it); depth bound, 2/3 replicas."},
 ]
 _pending = "check not built yet in this session (planned in DESIGN.md §4); not claimed until it runs"
 NOT_BUILT = [(f"C{i:02d}", _pending) for i in range(1, 21) if f"C{i:02d}" not in {c["id"] for c in CHECKS}]
